@@ -96,7 +96,9 @@ class InternalErrors:
         from sqlfluff.core.rules.base import BaseRule
 
         self.BaseRule = BaseRule
-        self.orig = BaseRule._log_critical_errors
+        # NOTE: keep the raw class attribute (it is a staticmethod): putting back what getattr() returns would
+        # turn it into an ordinary method and every later internal error would raise TypeError
+        self.orig = BaseRule.__dict__["_log_critical_errors"]
         rec = self
 
         def hook(self_, error):
@@ -108,7 +110,7 @@ class InternalErrors:
         return self
 
     def __exit__(self, *a):
-        self.BaseRule._log_critical_errors = self.orig
+        setattr(self.BaseRule, "_log_critical_errors", self.orig)
 
 
 def lint(case, fix=None, **extra):
